@@ -85,7 +85,7 @@ func vh_L2_lookupAN() {
 
 // ---- variable-base multiplication (constant time): [s]P for every 255-bit s ----
 
-//verif:ob prop=C03 name=L2_edwardsMulGeneric mode=int tags=purego use=pt,lookup
+//verif:ob prop=C03,C18 name=L2_edwardsMulGeneric mode=int tags=purego use=pt,lookup sharedro=1
 func vh_L2_mulGeneric() {
 	P := genPoint("P", 0)
 	s, sv := anyScalar255("s")
@@ -97,7 +97,7 @@ func vh_L2_mulGeneric() {
 // ---- fixed-base table multiplication: the table invariant (entry (i, j) = (j+1)*256^i*B) comes from its
 // real constructor run over the ghost; then Mul(s) = [s]B ----
 
-//verif:ob prop=C03 name=L2_basepointTableGeneric mode=int tags=purego use=pt,lookup
+//verif:ob prop=C03,C18 name=L2_basepointTableGeneric mode=int tags=purego use=pt,lookup sharedro=1
 func vh_L2_basepointTable() {
 	B := genPoint("B", 0)
 	tbl := newEdwardsBasepointTableGeneric(B)
